@@ -54,7 +54,11 @@ class Stepper(object):
         self.clock = clock
         self.wait_advance = wait_advance
         self.on_boundary_cb = None
+        # called on every wait(); returns True if it supplied input (e.g. typed the next keys)
+        self.on_wait_cb = None
         self.in_wait = False
+        # when waiting for input longer than the wait budget: Exit instead of Break
+        self.exit_on_wait = False
 
     def reset(self, budget=None):
         self.boundaries = 0
@@ -86,11 +90,18 @@ class Stepper(object):
     def wait(self, queues):
         self.waits += 1
         self.total_waits += 1
+        if self.on_wait_cb is not None and self.on_wait_cb(queues):
+            # input was supplied: not idle
+            self.waits = 0
         if self.clock is not None:
             self.clock.advance(self.wait_advance)
         if self.waits > self.wait_budget:
-            self.break_hit = True
             self.waits = 0
+            if self.exit_on_wait:
+                # nothing more is coming: the user closes the session
+                self.exit_hit = True
+                raise error.Exit()
+            self.break_hit = True
             raise error.Break()
 
     # picklable as a no-op (C40 suspends sessions with a controller attached)
